@@ -14,7 +14,7 @@ PID = "C18"
 RULE = (
     "cases = byte streams of 0..8 encoded messages (payload lengths boundary-biased in 0..4096; one in six a magic-cookie or SD-notification header, exact or with one field redrawn), optionally one corrupted "
     "header field (version, type, return code, length incl. < 8 and overshoot), optionally cut short at any position, fed "
-    "to an asyncio.StreamReader in chunks while the reader task runs concurrently on the virtual loop; chunkings: every "
+    "to an asyncio.StreamReader in chunks while the reader task runs concurrently on the virtual loop (an unrelated datagram is decoded between the chunks); chunkings: every "
     "single and double cut position for four short streams (exhaustive), random cut sets and all-1-byte chunks otherwise; "
     "non-trivial = a cut strictly inside a message, or a truncated stream, or a corrupted header; distinct = distinct case JSON"
 )
@@ -24,9 +24,10 @@ ASSUMPTIONS = [
     "which incomplete-read exception type is raised inside a message is not fixed by the statement: asyncio.IncompleteReadError and the library's IncompleteReadError are both accepted",
 ]
 BUDGET = {"quick": {"examples": 6400, "shrink": 200}, "thorough": {"examples": 200000, "shrink": 1000}}
-EXHAUSTIVE = "all single and double cut positions of 4 short streams (2-3 messages <= 64 bytes; plain, truncated, corrupted type, length<8)"
+EXHAUSTIVE = "all single and double cut positions of 4 short streams (2-3 messages <= 64 bytes; plain, truncated, corrupted type, length<8); three two-message streams (payloads of 0/15/16/17/32 bytes) cut short at every position, both reader APIs (fixed cases)"
 
-PL = [0, 1, 2, 7, 8, 9, 255, 256, 4095, 4096]
+PL = [0, 1, 2, 7, 8, 9, 15, 16, 17, 255, 256, 4095, 4096]   # 16 = the header's own length
+DECOY = wire.encode_someip(0x0D0D, 0x0E0E, 0x0F0F, 0x0A0A, 0x0B, 0x80, 0x01, b"decoy-payload")
 
 SHORT = [
     {"msgs": [[1, 2, 3, 4, 5, 0, 0, 0], [0xFFFF, 0x8100, 0, 1, 1, 2, 0, 5], [7, 7, 7, 7, 7, 0x81, 9, 1]], "corrupt": None, "trunc": None},
@@ -34,6 +35,19 @@ SHORT = [
     {"msgs": [[1, 2, 3, 4, 5, 0, 0, 2], [9, 9, 9, 9, 9, 0x80, 0, 4]], "corrupt": {"idx": 1, "field": "mtype", "value": 0x33}, "trunc": None},
     {"msgs": [[1, 2, 3, 4, 5, 0, 0, 2], [9, 9, 9, 9, 9, 0x80, 0, 4], [1, 1, 1, 1, 1, 1, 1, 0]], "corrupt": {"idx": 1, "field": "length", "value": 7}, "trunc": None},
 ]
+# streams cut short at every position (fixed cases): payloads as long as a header, shorter and longer
+TRUNC_SWEEP = [[[1, 2, 3, 4, 5, 0, 0, 16], [6, 7, 8, 9, 1, 2, 0, 16]], [[1, 2, 3, 4, 5, 0, 0, 15], [6, 7, 8, 9, 1, 2, 0, 17]], [[1, 2, 3, 4, 5, 0, 0, 0], [6, 7, 8, 9, 1, 2, 0, 32]]]
+
+
+def fixed_cases(tier):
+    out = []
+    for msgs in TRUNC_SWEEP:
+        total = len(_bytes({"msgs": msgs, "corrupt": None, "trunc": None}))
+        for cut in range(total + 1):
+            for api in (0, 1):
+                out.append({"msgs": msgs, "corrupt": None, "trunc": cut, "cuts": [], "api": api})
+                out.append({"msgs": msgs, "corrupt": None, "trunc": cut, "cuts": [16] if cut > 16 else [], "api": api})
+    return out
 
 
 def _bytes(case):
@@ -191,6 +205,9 @@ def run_case(case):
                 reader.feed_data(data[pos:c])
                 pos = c
                 sim.settle()
+                # while the reader waits for the next chunk the process decodes an unrelated datagram (another socket of
+                # the same application): decoding is re-entrant, it must not disturb the suspended read
+                hdr.SOMEIPHeader.parse(DECOY)
         reader.feed_eof()
         sim.settle()
         require(task.done(), "C18.reader-hangs", lambda: f"reader task still pending after EOF; got {len(got)} results")
